@@ -85,6 +85,12 @@ Theorem C01_no_nondeterminism_reachable_audited :
 Proof. exact Wiring.wiring_effects_audited. Qed.
 Print Assumptions C01_no_nondeterminism_reachable_audited.
 
+(* ---- source-derived: no state outside the committed store ---- *)
+Theorem C01_no_process_local_state :
+  filter Wiring.holds_process_state Generated.process_state = [] /\ Nat.leb 40 (List.length Generated.process_state) = true.
+Proof. exact Wiring.wiring_no_process_state. Qed.
+Print Assumptions C01_no_process_local_state.
+
 Theorem C01_no_nondeterminism_reachable_others :
   forall n es, In (n, es) Generated.effects -> existsb Wiring.bad_effect es = true ->
     Reach.mem n (map fst Wiring.effectful_reachable) = false ->
